@@ -124,10 +124,36 @@ def input_checks(ck, n):
         varies = z3.Or([z3.And(hh.e[i].t == hh.e[j].t, R.lift(col.e[i])[0] != R.lift(col.e[j])[0]) for i in range(n) for j in range(i + 1, n)]) if n > 1 else z3.BoolVal(False)
         iff_obligations(ck, f"{name} varies within a household", varies, raises_guard(ctx), [h.t >= 0 for h in hh.e], data,
                         I._fail_if_group_variables_not_constant_within_groups, n)
+    group_level_columns(ck, n)
     # individual-level column is never touched by the group check
     data = {"hh_id": hh, "bruttolohn_m": reals("bruttolohn_m", n)}
     v, ctx = run_check(I._fail_if_group_variables_not_constant_within_groups, data)
     ck.oblige(f"individual-level column passes the group check N={n}", [raises_guard(ctx)], 30)
+
+
+def group_level_columns(ck, n, pid="C20"):
+    """a column `<x>_<g>` supplied together with `hh_id` and `<g>_id` is rejected iff it varies within <g> -- for every
+    supported group level (a computed group-level column may be supplied as data, C05; level names that are suffixes
+    of one another -- hh / wthh -- must not be confused)"""
+    from _gettsim import interface as I
+    from _gettsim.config import SUPPORTED_GROUPINGS
+    hh = ints("hh_id", n)
+    for g in SUPPORTED_GROUPINGS:
+        if g == "hh":
+            continue
+        gid = ints(f"{g}_id", n)
+        col = reals(f"gsvprobe_m_{g}", n)
+        data = {"hh_id": hh, f"{g}_id": gid, col.name: col}
+        try:
+            v, ctx = run_check(I._fail_if_group_variables_not_constant_within_groups, data)
+        except R.Unsupported as e:
+            ck.add_inconclusive(f"group-level column {col.name}: not encodable ({e})")
+            continue
+        ck.functions |= ctx.funcs
+        varies = z3.Or([z3.And(gid.e[i].t == gid.e[j].t, col.e[i].t != col.e[j].t) for i in range(n) for j in range(i + 1, n)]) if n > 1 else z3.BoolVal(False)
+        pre = [h.t >= 0 for h in hh.e] + [x.t >= 0 for x in gid.e]
+        iff_obligations(ck, f"{col.name} varies within its {g}", varies, raises_guard(ctx), pre, data,
+                        I._fail_if_group_variables_not_constant_within_groups, n)
 
 
 def conversions(ck, n):
